@@ -7,6 +7,7 @@
 import Drive.WorldOps
 import Rsp.Spec.Emit
 import Rsp.Spec.Realm
+import Rsp.Spec.Locks
 namespace Drive
 open Rsp Rsp.Radmsg Rsp.Spec
 
@@ -44,6 +45,7 @@ structure Mon where
   tx : List (String × Bytes × Nat × Nat) := []      -- (server, packet, time of last transmission, transmissions so far)
   now : Nat := 0
   queue : List (Nat × QEnt) := []    -- mirror of the reply queues, oldest first
+  rxKnown : List (Bytes × Bytes × Bool) := []   -- reference answers of the C library's regexec (rxeval ops)
 
 def sections (out : String) : List String := (out.splitOn " | ")
 
@@ -182,7 +184,8 @@ def firstRealm (m : Mon) (trToks : List String) (id : Bytes) : Option (Option Wo
   let rec go : List (Bytes × World.Realm) → Option (Option World.Realm)
     | [] => some none
     | (val, r) :: rest =>
-      let answer := (tr.rx.find? fun (p, s, _) => p == r.pattern && s == id).map fun (_, _, res) => res.isSome
+      let answer := ((m.rxKnown.find? fun (p, s, _) => p == r.pattern && s == id).map (·.2.2)).orElse fun _ =>
+        (tr.rx.find? fun (p, s, _) => p == r.pattern && s == id).map fun (_, _, res) => res.isSome
       match Realm.realmMatches val id answer with
       | none => none
       | some true => some (some r)
@@ -437,6 +440,22 @@ def monOp (m : Mon) (op : String) (args : List String) (impl : List String) (trT
                   then (n, body, m.now) :: m.udpSeen else m.udpSeen
       (resync { m with udpSeen := seen } out, verdict)
     | _, _ => (m, "bad-op")
+  | "rxeval", [p, s] =>
+    (match ofHex p, ofHex s, impl with
+     | some p, some s, ["rxeval", "m"] => ({ m with rxKnown := (p, s, true) :: m.rxKnown }, "ok")
+     | some p, some s, ["rxeval", "n"] => ({ m with rxKnown := (p, s, false) :: m.rxKnown }, "ok")
+     | _, _, _ => (m, "ok"))
+  | "locks", [] =>
+    let edges := impl.drop 1
+    let bad := edges.filterMap fun e =>
+      let e' := (e.splitOn "!same").head!
+      match e'.splitOn ">" with
+      | [h, a] => (match Locks.edgeOk h a with
+                   | some true => none
+                   | some false => some ("bad C17:lock-order-violation:" ++ e)
+                   | none => some ("bad C17:unclassified-lock-expression:" ++ e))
+      | _ => some ("bad C17:unparsable-lock-pair:" ++ e)
+    (m, bad.head?.getD "ok")
   | "tick", [n] => ({ m with now := m.now + (n.toNat?).getD 0 }, "ok")
   | "radput", _ => (m, "ok")
   | "reset", [name] => (resync { m with tx := m.tx.filter (·.1 ≠ name) } out, "ok")   -- a reset lets everything be sent again
